@@ -89,6 +89,13 @@ def dev_events(tree, retired, max_files, max_stmts):
         for fi, (f, stmts) in enumerate(tree):
             t = tuple(x for k, x in enumerate(tree) if k != fi)
             yield ("delfile(%s)" % f, t, retired | {i for _, i in stmts if i is not None})
+    # a file renamed with everything in it (its statements keep their IDs; the order in which files are visited changes)
+    unused = [f for f in FILES if f not in names]
+    if unused and n_live(tree) <= 3:      # (bounded: renames are explored on trees of at most three statements)
+        for fi, (f, stmts) in enumerate(tree):
+            if any(i is not None for _, i in stmts):
+                t = tuple(sorted(tuple(x for k, x in enumerate(tree) if k != fi) + ((unused[-1], stmts),)))
+                yield ("mvfile(%s->%s)" % (f, unused[-1]), t, retired)
 
 
 def scenario(tree, lock):
@@ -413,7 +420,7 @@ def run(tier, v):
     v.coverage["max_depth"] = s.max_depth
     v.coverage["dominance_failures_without_concrete_reuse"] = s.dominance_notes
     v.coverage["bounds"] = {"max_files": s.max_files, "max_live_statements": s.max_stmts, "depth": s.depth, "faulty_runs_per_history": s.max_faulty}
-    v.subspace("BFS over (tree, lock, retired IDs) from 5 start states; events: add/newfile/del_max/del/delfile, check, edit, and edit with one "
+    v.subspace("BFS over (tree, lock, retired IDs) from 5 start states; events: add/newfile/del_max/del/delfile/mvfile (rename, trees of <= 3 statements), check, edit, and edit with one "
                "kill-after / I/O failure / SIGTERM / SIGINT at every operation of that run", len(s.seen), exhaustive=not s.capped,
                **({"wall_cap_hit_s": s.wall_cap, "all_states_of_depth_below_this_were_expanded": s.completed_depth} if s.capped else {}))
     samples = [k for k in list(s.seen)[:400:80]]
